@@ -1,2 +1,119 @@
--- driver stub (replaced when the model for C13 is built)
-def main : IO Unit := pure ()
+import PyTough.Model.Incon
+import PyTough.Gen.Specs
+import PyTough.Py.Proto
+open Py Model Model.Incon
+
+/-!
+  Driver of C13 (`drv_c13`): one request per line.
+
+    w   <reset> <incon…>                         write        → `ok t<hex of the file text>` | `exc X`
+    r   <rf> <sim0> <nvars|n> <check> t<hex>      read         → `ok <dump>` | `exc X`
+    rw  <rf> <sim0> <nvars|n> <check> <reset> t<hex>   read, hand the values back, write again → `ok t<hex>`
+    fx / ux / vb  s<hex>                          fix_blockname / unfix_blockname / valid_blockname
+
+  <incon…> = s<sim hex> (n | 5 value tokens) <nblocks> { s<name> <nseq> <nadd> <porosity> (n | p k1 k2 k3) <nvars> values… }
+  value tokens as in drv_c02:  n | i<int> | r<num>/<den> | z | inf0 | inf1 | nan | s<hex>
+-/
+
+def parseVal (t : String) : Val :=
+  match t.toList with
+  | ['n'] => .none
+  | ['z'] => .negZero
+  | ['n','a','n'] => .nan
+  | ['i','n','f','0'] => .inf false
+  | ['i','n','f','1'] => .inf true
+  | 'i' :: r => .int (String.ofList r).toInt!
+  | 's' :: r => .str (ofHexAux r)
+  | 'r' :: r =>
+    match (String.ofList r).splitOn "/" with
+    | [a, b] => .real (mkRat a.toInt! b.toNat!)
+    | _ => .none
+  | _ => .none
+
+def showPVal : PVal → String
+  | .none => "n"
+  | .int i => s!"i{i}"
+  | .flt (.fin neg m e) => s!"f{if neg then 1 else 0},{m},{e}"
+  | .flt (.inf neg) => s!"inf{if neg then 1 else 0}"
+  | .flt .nan => "nan"
+  | .str s => "s" ++ toHex s
+
+def strArg (t : String) : Str := ofHexAux (t.toList.drop 1)
+
+def specOf (name : String) : List FieldSpec :=
+  match Gen.Specs.t2incon.find name with
+  | none => []
+  | some sec => match parseSpecs (sec.specs.map String.toList) with | .ok fs => fs | .error _ => []
+
+/-- the record layouts of the current /repo tree -/
+def specs : Specs :=
+  { headerShort := specOf "header_short", headerLong := specOf "header_long", incon1 := specOf "incon1",
+    incon1Tr := specOf "incon1_toughreact", incon2 := specOf "incon2", timing := specOf "timing",
+    timingTr := specOf "timing_toughreact" }
+
+def parseBlocks : Nat → List String → List (Block Val) → Option (List (Block Val))
+  | 0, _, acc => some acc.reverse
+  | k + 1, nm :: nseq :: nadd :: por :: rest, acc =>
+    let (perm, rest1) : Option (Val × Val × Val) × List String :=
+      match rest with
+      | "p" :: a :: b :: c :: r => (some (parseVal a, parseVal b, parseVal c), r)
+      | _ :: r => (none, r)
+      | [] => (none, [])
+    match rest1 with
+    | nv :: r =>
+      let n := nv.toNat!
+      parseBlocks k (r.drop n) ({ block := strArg nm, vars := (r.take n).map parseVal, porosity := parseVal por,
+                                  permeability := perm, nseq := parseVal nseq, nadd := parseVal nadd } :: acc)
+    | [] => none
+  | _, _, _ => none
+
+def parseIncon : List String → Option (Incon Val)
+  | sim :: rest =>
+    let (timing, rest1) : Option (Timing Val) × List String :=
+      match rest with
+      | "n" :: r => (none, r)
+      | _ :: a :: b :: c :: d :: e :: r =>
+        (some { kcyc := parseVal a, iter := parseVal b, nm := parseVal c, tstart := parseVal d, sumtim := parseVal e }, r)
+      | r => (none, r)
+    match rest1 with
+    | nb :: r => -- the harness builds the object with `add_incon`, block by block
+      (parseBlocks nb.toNat! r []).map fun bs => { simulator := strArg sim, blocks := bs.foldl addIncon [], timing := timing }
+    | [] => none
+  | [] => none
+
+def showBlock (b : Block PVal) : String :=
+  let perm := match b.permeability with
+    | none => "n"
+    | some (a, b, c) => s!"p {showPVal a} {showPVal b} {showPVal c}"
+  s!"s{toHex b.block} {showPVal b.nseq} {showPVal b.nadd} {showPVal b.porosity} {perm} {b.vars.length} " ++
+    " ".intercalate (b.vars.map showPVal)
+
+def showIncon (x : Incon PVal) : String :=
+  let timing := match x.timing with
+    | none => "n"
+    | some t => s!"t {showPVal t.kcyc} {showPVal t.iter} {showPVal t.nm} {showPVal t.tstart} {showPVal t.sumtim}"
+  s!"s{toHex x.simulator} {timing} {x.blocks.length} " ++ " ".intercalate (x.blocks.map showBlock)
+
+def rfOf (s : String) : ReadFn := if s = "f" then .fortran else .default
+def nvOf (s : String) : Option Nat := if s = "n" then none else some s.toNat!
+def showText (ls : List Str) : String := "t" ++ toHex ls.flatten
+
+def handle : List String → String
+  | "w" :: reset :: rest =>
+    match parseIncon rest with
+    | none => "bad-incon"
+    | some x => showExc showText (write specs x (reset = "1"))
+  | ["r", rf, sim0, nv, check, text] =>
+    showExc showIncon (read (rfOf rf) specs (strArg sim0) (nvOf nv) (check = "1") (splitLines (strArg text)))
+  | ["rw", rf, sim0, nv, check, reset, text] =>
+    showExc showText (do
+      let x ← read (rfOf rf) specs (strArg sim0) (nvOf nv) (check = "1") (splitLines (strArg text))
+      write specs x.toDouble (reset = "1"))
+  | ["fx", s] => showExc (fun n => "s" ++ toHex n) (Names.fixBlockname (strArg s))
+  | ["ux", s] => "ok s" ++ toHex (Names.unfixBlockname (strArg s))
+  | ["dbl", neg, n, d] => (match nearestDouble (neg = "1") n.toNat! d.toNat! with
+      | .real r => s!"r{r.num}/{r.den}" | .negZero => "z" | .inf b => (if b then "inf1" else "inf0") | _ => "?")
+  | ["vb", s] => showExc (fun (b : Bool) => if b then "1" else "0") (Names.validBlockname (strArg s))
+  | _ => "bad-op"
+
+def main : IO Unit := serve handle
